@@ -5,7 +5,8 @@
    correspondence run (table bytes and JSON v2 levelOfConcern vs this model,
    JSON v2 value vs JSON v1 value). *)
 From Coq Require Import String.
-From GS Require Import GoSem Text Float64 Human Output OutputProofs.
+From GS Require Import GoSem Text Float64 Human Output OutputProofs ContentsBridge.
+From GSGen Require Import ContentsGen.
 Open Scope Z_scope.
 
 (* a row is emitted iff the item is "interesting"; it is hidden iff it is not
@@ -61,3 +62,18 @@ Theorem C11_real_ratio_refuted :
     it_value i * th_den t * fden (it_scale i) < th_num t * fnum (it_scale i).
 Proof. exact real_ratio_refuted. Qed.
 Print Assumptions C11_real_ratio_refuted.
+
+(* tie T for the report layout: the table contents every theorem above is about are the ones the Go literal in
+   HistorySize.contents() describes — gen/ContentsGen.v is regenerated from sizes/output.go (sections, order, symbols, names,
+   value and path fields with their Count32/Count64 widths, humaner, unit, reference value) on every run *)
+Theorem C11_contents_generated : forall r : report, to_tc r contents_gen = Some [contents r].
+Proof. exact contents_generated. Qed.
+Print Assumptions C11_contents_generated.
+
+(* every quantity of the scan and every path it records is shown by exactly one item *)
+Theorem C11_every_field_once :
+  all_once (map fst value_fields) (map fst (gitems contents_gen)) = true /\
+  all_once (map fst path_fields)
+           (concat (map (fun p => match snd p with Some x => [x] | None => [] end) (gitems contents_gen))) = true.
+Proof. exact every_field_once. Qed.
+Print Assumptions C11_every_field_once.
